@@ -175,6 +175,18 @@ template <typename FSM> void Explorer<FSM>::liveChecks(Runner& r, Exec& x) {
 		const auto& pt = r.fsm->previousTransitions();
 		for (unsigned i = 0; i < pt.count(); ++i) if (!payloadOk(pt[i], r.env, "previousTransitions()[" + str(i) + "] after " + x.step.op.text())) break;
 		for (int s = 0; s < N; ++s) if (const auto* t = r.fsm->lastTransitionTo((hfsm2::StateID) s)) if (!payloadOk(*t, r.env, "lastTransitionTo(S" + str(s) + ") after " + x.step.op.text())) break;
+		// the states activated by a transition read exactly its payload afterwards - not the payload of another request of the step
+		for (size_t i = x.stepBegin; i < x.stepEnd; ++i) {
+			const TraceEv& e = x.trace[i];
+			if (e.meth != M_ENTER || e.layer != 0) continue;
+			const auto* t = r.fsm->lastTransitionTo((hfsm2::StateID) e.state);
+			if (t && !requestReaches(e.state, (int) t->destination)) {
+				const Pay* p = t->payload();
+				violation("C14", x.before.active.size() && x.before.active[e.state] ? "payload/stale-last-transition-after-reenter" : "payload/last-transition-of-another-request", "S" + str(e.state) + " was entered in this step, yet lastTransitionTo(S" + str(e.state) + ") exposes the request to S" + str((int) t->destination) +
+						  (p ? " with payload tag " + str(payTag(*p)) : std::string(" without payload")) + ", which cannot have activated it (payloads of different requests of one step are mixed up)", x);
+				break;
+			}
+		}
 		++compared;
 	}
 #endif
